@@ -62,6 +62,25 @@ Example C19_stream_next_result_witness :
     [[]; [OSome None [4]]; [OSome None [4]; OSome None [5]]; [OSome None [4]; OSome None [5]; ONone]].
 Proof. vm_compute. repeat split; reflexivity. Qed.
 
+(* ---- the stream form ends: under EVERY schedule with more than k0 + s polls - s the Pending and Item answers the inner stream has scripted before its
+        End - the stream has returned None, without any drop or panic. *)
+Theorem C19_wait_until_stream_ends_under_any_schedule d i ops k0 :
+  goodf d = true -> goods i = true -> lead d = Some k0 -> sched ops -> k0 + steps_before_end i < npolls ops ->
+  let w := wait_world true [d; i] ops in finished _ w = true /\ dropped _ w = false.
+Proof. exact (wait_until_stream_ends d i ops k0). Qed.
+Print Assumptions C19_wait_until_stream_ends_under_any_schedule.
+
+(* ---- the future form from every reachable state (the theorem above starts at the fresh combinator): after any schedule ops0, while unresolved,
+        any further schedule with more than k0 + k1 polls returns the inner future's output among its first k0 + k1 + 1 polls. *)
+Theorem C19_wait_until_resolves_from_every_reachable_state d i ops0 ops k0 k1 :
+  goodf d = true -> goodf i = true -> lead d = Some k0 -> lead i = Some k1 -> sched ops0 -> sched ops ->
+  let w := wait_world false [d; i] ops0 in finished _ w = false -> k0 + k1 < npolls ops ->
+  exists ops1 p ops2, ops = ops1 ++ p :: ops2 /\ is_poll p = true /\ npolls ops1 <= k0 + k1 /\
+    let w1 := p_world ust wait_poll u_drops w ops1 in
+    finished _ w1 = false /\ dropped _ w1 = false /\ returns ust w1 (p_step ust wait_poll u_drops w1 p).
+Proof. exact (wait_until_returns_from d i ops0 ops k0 k1). Qed.
+Print Assumptions C19_wait_until_resolves_from_every_reachable_state.
+
 (* wait_until never unwinds by itself: an `EEndX` in the history implies that the deadline's or the inner's poll panicked *)
 Theorem C19_wait_until_unwinds_only_on_child_panic stream scs ops :
   In EEndX (strip (tr _ (wait_world stream scs ops))) -> In (EAns APanic) (strip (tr _ (wait_world stream scs ops))).
